@@ -31,7 +31,8 @@ def site_scenario(case):
         class S(session.RPCSession):
             async def handle_request(self, request):
                 await asyncio.sleep(1000)
-        proto, ft, s = sessions.attach(S, kind='client', transport=case['transport'], hwm=5 if case['site'] == 'send_blocked' else None)
+        proto, ft, s = sessions.attach(S, kind='server' if case['site'] == 'handler' else 'client', transport=case['transport'],
+                                       hwm=5 if case['site'] == 'send_blocked' else None)
         if case['site'] == 'close_waiting':
             def close():
                 ft.closing = True            # a graceful close that does not complete (unsent data, silent peer)
@@ -74,6 +75,25 @@ def site_scenario(case):
         info = {}
 
         async def main():
+            if case['site'] == 'handler':
+                # the library's own request-handling task (inside timeout_after(processing_timeout) and the slot limiter)
+                await sessions.settle(3)
+                proto.data_received(b'{"jsonrpc":"2.0","method":"m","params":[],"id":1}\n')
+                await sessions.settle(6)
+                hts = [x for x in asyncio.all_tasks(loop) if '_throttled_request' in getattr(x.get_coro(), '__qualname__', '')]
+                if len(hts) != 1:
+                    return {'delivered': False, 'task': None, 'member': None, 'hung': False, 'note': 'handler task not found'}
+                t = hts[0]
+                await asyncio.sleep(case['cancel_at'] / 2)
+                if case.get('lower'):
+                    s._incoming_concurrency.set_target(max(1, s._incoming_concurrency.max_concurrent - 5))
+                await asyncio.sleep(case['cancel_at'] / 2)
+                delivered = not t.done()
+                t.cancel()
+                await sessions.settle(10)
+                await asyncio.sleep(0.5)
+                return {'delivered': delivered, 'task': 'still running' if not t.done() else 'cancelled' if t.cancelled() else
+                        ('normal' if t.exception() is None else type(t.exception()).__name__), 'member': None, 'hung': not t.done()}
             if case['as_member']:
                 async def joiner():
                     async with curio.TaskGroup() as g:
@@ -81,7 +101,12 @@ def site_scenario(case):
                 t = loop.create_task(joiner())
             else:
                 t = loop.create_task(wrapped())
-            await asyncio.sleep(case['cancel_at'])
+            await asyncio.sleep(case['cancel_at'] / 2)
+            if case.get('lower'):
+                # the limit is lowered while the task is inside the limiter's block: its slot will be retired on exit
+                for lim in (s._outgoing_concurrency, s._incoming_concurrency):
+                    lim.set_target(max(1, lim.max_concurrent - 5))
+            await asyncio.sleep(case['cancel_at'] / 2)
             delivered = not t.done()
             t.cancel()
             try:
@@ -108,7 +133,7 @@ def site_oracle(case, obs):
     if not obs['delivered']:
         return None
     if obs['task'] != 'cancelled':
-        return (f"the task was cancelled from outside while in the library's {case['site']} ({case['wrap']} nesting"
+        return (f"the task was cancelled from outside while in the library's {case['site']} ({case['wrap']} nesting{', limit lowered meanwhile' if case.get('lower') else ''}"
                 f"{', as the joining task of a group' if case['as_member'] else ''}) and ended {obs['task']} instead of cancelled")
     if case['as_member'] and obs['member'] != 'cancelled':
         return f"the group member in the library's {case['site']} ended {obs['member']} instead of cancelled when its group's join was cancelled"
@@ -250,12 +275,13 @@ class C12(Prop):
                             'ending cancelled after an external cancel')
         # the library's own uses of the constructs (session.py, transports)
         ns = 0
-        for site in ('send_request', 'send_batch', 'send_blocked', 'close_waiting'):
-            for wrap in ('none', 'outer', 'handled_inner'):
-                for as_member in (False, True):
+        for site in ('send_request', 'send_batch', 'send_blocked', 'close_waiting', 'handler'):
+            for wrap in ('none', 'outer', 'handled_inner') if site != 'handler' else ('none', 'lowered'):
+                for as_member in (False, True) if site != 'handler' else (False,):
                     for cancel_at in (0.05, 1.0, 7.5):
                         for tr in (('rs', 'us') if ctx['tier'] != 'quick' or wrap == 'none' else ('rs',)):
-                            case = {'site_scenario': True, 'site': site, 'wrap': wrap, 'as_member': as_member, 'cancel_at': cancel_at, 'transport': tr}
+                            case = {'site_scenario': True, 'site': site, 'wrap': wrap, 'as_member': as_member, 'cancel_at': cancel_at, 'transport': tr,
+                                    'lower': wrap == 'lowered' or (site in ('send_request', 'send_batch') and cancel_at == 1.0)}
                             obs = site_scenario(case)
                             ns += 1
                             cl = site_oracle(case, obs)
